@@ -881,6 +881,10 @@ var auditedPanicSites = map[string]string{
 	"defaultResolutionCache/must/MustLoadSwagger20Schema()":      "see MustLoadSwagger20Schema",
 	"defaultResolutionCache/must/MustLoadJSONSchemaDraft04()":    "see MustLoadJSONSchemaDraft04",
 	"schemaLoader.isCircular/nil-map-store/r.context.circulars":  "circulars is made in newResolverContext, the only constructor of resolverContext (checked by ctx-private)",
+	// GOOS=windows only (normalizer_windows.go), analysed in the thorough tier
+	"fixWindowsURI/slice/drive[:1]": "dominated by len(drive) > 0",
+	"fixWindowsURI/index/drive[i]":  "loop `i := len(drive)-1; for i >= 0 && ...drive[i]...; i--`: the index test i >= 0 is the left operand of the same && and i starts at len-1",
+	"fixWindowsURI/slice/drive[:i]": "reached only when the volume name is a prefix of u.Path with an empty host, i.e. a UNC volume (\\\\host\\share, \\\\?\\C:), which contains a separator, so the scan stops at i >= 0; a drive-letter volume X: always takes the first branch because url.Parse yields the one-letter scheme x. Read, not executed: this sandbox cannot run GOOS=windows code",
 }
 
 func ruleNoPanicPath(c *Ctx) {
